@@ -12,6 +12,7 @@ import (
 	"github.com/mimecast/dtail/internal/config"
 	"github.com/mimecast/dtail/internal/io/dlog"
 	"github.com/mimecast/dtail/internal/ssh/client"
+	"github.com/mimecast/dtail/internal/vhook"
 
 	"golang.org/x/crypto/ssh"
 )
@@ -193,6 +194,7 @@ func (c *ServerConnection) handle(ctx context.Context, cancel context.CancelFunc
 
 	// Send all commands to client.
 	for _, command := range c.commands {
+		vhook.Point("cli.cmd.between")
 		dlog.Client.Debug(command)
 		if err := c.handler.SendMessage(command); err != nil {
 			dlog.Client.Debug(err)
